@@ -235,6 +235,32 @@ CLAIMED["C20"] = {
     "+ function contracts for option validation",
 }
 
+CLAIMED["C12"] = {
+    "text": "Partial claim (frames and counters): pickle-frame obligations "
+    "-- every attribute the property names (iteration, live / nested "
+    "points, evidence state, insertion indices, history, proposal pool "
+    "x / samples / indices, training counters, reparameterisation object, "
+    "INS sample stores and proposal) is written to the pickle unchanged by "
+    "the __getstate__ of its class; every attribute a __getstate__ drops is "
+    "assigned again on the resume path; __setstate__ restores exactly the "
+    "extras __getstate__ returns; the pickled evaluation counters are the "
+    "model's values at pickling time; function contracts: "
+    "resume_from_pickled_sampler adds the pickled count to the model's "
+    "counter exactly once and wires model / resumed; check_resume restores "
+    "`populated` for a pool that was populated at the checkpoint.",
+    "note": "NOT decided: that pickle / torch.load reproduce array and "
+    "tensor contents (assumed library round trip), float32 agreement of "
+    "recomputed INS densities, double counting when the SAME model object "
+    "is reused for a resume (caller-history precondition: fresh model "
+    "object), and the validity of the continued run (that is C01 / C04 / "
+    "C13, whose invariants only mention pickled-unchanged attributes). "
+    "The restorer analysis is syntactic (may-write of the resume entry "
+    "points), not a proof that the assignment precedes every read.",
+    "technique": "contract-based: abstract interpretation of the "
+    "__getstate__ / __setstate__ bodies into dropped / overridden / extra "
+    "sets + function contracts discharged by z3",
+}
+
 NA = {
     "C06": "statistical calibration over seeds: no pre/post-condition on a "
     "function expresses a distributional claim and no deductive back end "
